@@ -34,6 +34,13 @@ fn main() -> anyhow::Result<()> {
             let rows = core::par_cases(total, a.seed, |ctx, _seed, i| gen_val::generate_exhaustive(ctx, &kind, maxlen, i));
             core::write_out(&a.out, &rows)
         }
+        Some("tagseq") => {
+            // bwh tagseq <maxlen>: every word over {start tag, end tag} of at most maxlen tags, in four comment layouts
+            let maxlen: usize = a.rest.first().and_then(|s| s.parse().ok()).unwrap_or(8);
+            let total = gen_val::tagseq_count(maxlen);
+            let rows = core::par_cases(total, a.seed, |ctx, _seed, i| gen_val::generate_tagseq(ctx, maxlen, i));
+            core::write_out(&a.out, &rows)
+        }
         Some("replay") => {
             let no_impl = a.rest.iter().any(|s| s == "--no-impl");
             let path = a.rest.iter().find(|s| !s.starts_with("--")).cloned().unwrap_or_else(|| "cases.jsonl".into());
